@@ -134,6 +134,73 @@ theorem conv_rows_correct_iff (start stop step : Option Int) (n : Nat) (hst : 0 
         rw [hm] at hi
         omega
 
+/-- **LIS / BIT, what is lost** (the class of known finding F11, at full strength): outside the exact condition of
+`conv_rows_correct_iff` the frames Python slicing selects are the rows written **followed by exactly one more frame** —
+the converters lose the last selected frame and nothing else. -/
+theorem conv_rows_drops_exactly_last (start stop step : Option Int) (n : Nat) (hst : 0 < step.getD 1)
+    (hlt : pyBound start 0 n < pyBound stop n n)
+    (hmod : pyBound start 0 n % step.getD 1 < pyBound stop n n % step.getD 1) :
+    ∃ l w, convRowsSlice start stop step n = .ok l ∧ sliceIndices start stop step n = .ok (l ++ [w]) := by
+  obtain ⟨l, hl, hls, hlm⟩ := conv_rows_mem_iff start stop step n hst
+  obtain ⟨p, hp, hpm, hps, _⟩ := slice_indices_mem_iff start stop step n hst
+  set st := step.getD 1
+  set e := pyBound stop n n
+  set s := pyBound start 0 n
+  have he := Int.mul_ediv_add_emod e st
+  have hs := Int.mul_ediv_add_emod s st
+  have hre0 := Int.emod_nonneg e (ne_of_gt hst)
+  have hre1 := Int.emod_lt_of_pos e hst
+  have hrs0 := Int.emod_nonneg s (ne_of_gt hst)
+  have hrs1 := Int.emod_lt_of_pos s hst
+  have hq : s / st ≤ e / st := Int.ediv_le_ediv hst (le_of_lt hlt)
+  have hmul : st * (s / st) ≤ st * (e / st) := Int.mul_le_mul_of_nonneg_left hq (le_of_lt hst)
+  refine ⟨l, st * (e / st) + s % st, hl, ?_⟩
+  rw [hp]
+  congr 1
+  have hlw : (l ++ [st * (e / st) + s % st]).Pairwise (· < ·) := by
+    rw [List.pairwise_append]
+    refine ⟨hls, List.pairwise_singleton _ _, ?_⟩
+    intro a ha b hb
+    have hb' : b = st * (e / st) + s % st := by simpa using hb
+    have := ((hlm a).1 ha).2.1
+    omega
+  apply eq_of_mem_iff_of_pairwise_lt hps hlw
+  intro i
+  rw [hpm, List.mem_append, hlm]
+  unfold pySelected
+  constructor
+  · rintro ⟨a, b, c⟩
+    by_cases hi : i < st * (e / st)
+    · exact Or.inl ⟨a, hi, c⟩
+    · right
+      push Not at hi
+      obtain ⟨k, hk⟩ := Int.dvd_of_emod_eq_zero c
+      have hiw : i = st * (s / st + k - e / st) + (st * (e / st) + s % st) := by
+        have : i = s + st * k := by omega
+        rw [this, Int.mul_sub, Int.mul_add]; omega
+      have hm0 : 0 ≤ s / st + k - e / st := by
+        by_contra hneg
+        push Not at hneg
+        have : st * (s / st + k - e / st) ≤ st * (-1) := Int.mul_le_mul_of_nonneg_left (by omega) (le_of_lt hst)
+        omega
+      have hm1 : s / st + k - e / st ≤ 0 := by
+        by_contra hpos
+        push Not at hpos
+        have : st * 1 ≤ st * (s / st + k - e / st) := Int.mul_le_mul_of_nonneg_left (by omega) (le_of_lt hst)
+        omega
+      have hm : s / st + k - e / st = 0 := by omega
+      rw [hm] at hiw
+      simp only [List.mem_singleton]
+      omega
+  · rintro (⟨a, b, c⟩ | hw)
+    · have hBe : st * (e / st) ≤ e := Int.mul_ediv_self_le (ne_of_gt hst)
+      exact ⟨a, by omega, c⟩
+    · have hw' : i = st * (e / st) + s % st := by simpa using hw
+      refine ⟨by omega, by omega, ?_⟩
+      have : i - s = st * (e / st - s / st) := by
+        rw [hw', Int.mul_sub]; omega
+      rw [this]; exact Int.mul_emod_right _ _
+
 /-- Corollary: with step 1 (or absent) the LIS/BIT converters write exactly the selected frames. -/
 theorem conv_rows_correct_step_one (start stop : Option Int) (n : Nat) :
     convRowsSlice start stop none n = sliceIndices start stop none n := by
@@ -226,7 +293,19 @@ theorem conv_rows_sample (n s : Nat) (hs : 0 < s) :
         · exact h0.symm
         · have := (List.pairwise_cons.1 hsorted).1 0 h0; omega
 
+/-- **RP66V1 STOP for a sample**: the index whose X is printed as STOP is the last row written. -/
+theorem rp66_sample_stop_is_last_row (n s : Nat) (h : rp66RowsSample n s ≠ []) :
+    (rp66RowsSample n s).getLast? = some (rp66StopIndexSample n s).toNat ∧ 0 ≤ rp66StopIndexSample n s := by
+  unfold rp66StopIndexSample rp66RowsSample at *
+  cases hl : (sampleIndices n s).getLast? with
+  | none => simp [List.getLast?_eq_none_iff] at hl; exact absurd hl h
+  | some y => simp
+
 /-! ## Non-vacuity -/
+example : convRowsSlice none none (some 3) 10 = .ok [0, 3, 6] ∧ sliceIndices none none (some 3) 10 = .ok ([0, 3, 6] ++ [9]) := by decide
+example : pyBound (none : Option Int) 0 10 < pyBound (none : Option Int) 10 10 ∧
+    pyBound (none : Option Int) 0 10 % 3 < pyBound (none : Option Int) 10 10 % 3 := by decide
+example : rp66RowsSample 12 7 = [0, 1, 3, 5, 6, 8, 10] ∧ rp66StopIndexSample 12 7 = 10 := by decide
 example : convRowsSlice (some 4) (some 10) (some 2) 20 = .ok [4, 6, 8] := by decide
 example : convRowsSlice none none (some 3) 10 = .ok [0, 3, 6] ∧ sliceIndices none none (some 3) 10 = .ok [0, 3, 6, 9] := by decide
 example : convRowsSample 12 7 = .ok [0, 1, 2, 3, 4, 5] := by decide
